@@ -299,7 +299,14 @@ def extract(src):
         fresh_rets = True
     else:
         die("merging of return values in make_one_ret not recognised")
-    return dict(mulo_row=mulo_row, fresh_rets=fresh_rets, rev=rev, ret_ext=ret_ext, arg_ext=arg_ext, arg_skip=arg_skip, shortcut=shortcut, bt_codes=bt_codes,
+    so = norm(func_body(src, "simplify_op"))
+    if "int after_p = !move_p && out_p;" in so:
+        ovf_before = False
+    elif "int after_p = !move_p && out_p && !MIR_overflow_insn_code_p (code);" in so:
+        ovf_before = True
+    else:
+        die("placement of the address computation of a memory destination (after_p) not recognised")
+    return dict(ovf_before=ovf_before, mulo_row=mulo_row, fresh_rets=fresh_rets, rev=rev, ret_ext=ret_ext, arg_ext=arg_ext, arg_skip=arg_skip, shortcut=shortcut, bt_codes=bt_codes,
                 bt_true=bt_true, thr=thr, round_always=round_always, loop=rest)
 
 
@@ -327,7 +334,8 @@ def main():
     out.append(f"def maxFuncInlineGrowth : Nat := {d['thr']['MIR_MAX_FUNC_INLINE_GROWTH']}\n")
     out.append(f"def roundAlways : Bool := {'true' if d['round_always'] else 'false'}")
     out.append(f"def muloRow : Bool := {'true' if d['mulo_row'] else 'false'}")
-    out.append(f"def freshRets : Bool := {'true' if d['fresh_rets'] else 'false'}\n")
+    out.append(f"def freshRets : Bool := {'true' if d['fresh_rets'] else 'false'}")
+    out.append(f"def ovfAddrBefore : Bool := {'true' if d['ovf_before'] else 'false'}\n")
     out.append("def consolidationLoop : String := " + lstr(d["loop"]) + "\n")
     out.append("end MirVerif.Gen.C04")
     txt = "\n".join(out) + "\n"
